@@ -122,7 +122,7 @@ def layout_cases(draw, tier):
         else:
             name = typ
         if typ == 'ALWAYS_TRUE' and not ops and draw(st.booleans()):
-            body = draw(st.sampled_from(['vdd', 'VDD', 'Vdd']))
+            body = draw(st.sampled_from(['vdd', 'VDD', 'Vdd'])) + sp()
         else:
             args = (sp() + ',' + sp()).join(ops)
             body = f'{_case_variant(draw, name)}{sp()}({sp()}{args}{sp()}){sp()}'
